@@ -671,7 +671,9 @@ def full_in_domain(t):
 def full_conformance(run, texts, tag, limit):
     """the model run forwards on inputs chosen by the code side: Stages!FullDoc of every in-domain text (TLC,
     MC_FullOf) against the real conversion of the same text; differences are drift"""
-    texts = [t for t in gen.dedup(texts) if full_in_domain(t)][:limit]
+    # (texts of modest size: the specification's recogniser walks a legend character by character, which is no way to
+    # get through 16 KiB of rules; the large legends are bound through C16legend / C17 instead)
+    texts = [t for t in gen.dedup(texts) if len(t) <= 700 and full_in_domain(t)][:limit]
     if not texts:
         return 0
     d = common.rundir()
